@@ -51,17 +51,25 @@ Theorem C20_rotation :
 Proof. exact rotation_reaches_pooled_config. Qed.
 Print Assumptions C20_rotation.
 
+(* a watcher is superseded - and then stops - exactly when the same settings register again for the same file (a
+   retry after a failed load); registrations of other settings leave it running *)
 Theorem C20_superseded_watcher_stops :
-  forall path ws w, In w (cancel_watchers path ws) -> w_file w = path -> w_alive w = false.
+  forall id ws w, In w (cancel_watchers id ws) -> w_id w = id -> w_alive w = false.
 Proof. exact cancel_stops. Qed.
 Print Assumptions C20_superseded_watcher_stops.
 
-(* ... which is also how rotation is LOST (refutation of "every pooled configuration watching the file follows it"):
-   two different settings on one file - the later registration stops the earlier watcher *)
-Example C20_rotation_refuted_two_settings_one_file :
+Theorem C20_other_settings_do_not_stop_a_watcher :
+  forall id ws w, In w ws -> w_id w <> id -> In w (cancel_watchers id ws).
+Proof. exact cancel_spares. Qed.
+Print Assumptions C20_other_settings_do_not_stop_a_watcher.
+
+(* two different settings on one file: both pooled configurations follow the file (before the watcher was keyed by the
+   settings, the later registration stopped the earlier watcher and the first configuration kept the old CA: the
+   finding C20/same-file-watcher-superseded) *)
+Example C20_two_settings_one_file_both_follow :
   let pem := fun _ : string => true in
   let s1 := {| ts_ca := ""; ts_file := "f"; ts_skip := None; ts_interval := 40; ts_interval_str := "40ns" |} in
   let s2 := {| ts_ca := ""; ts_file := "f"; ts_skip := None; ts_interval := 80; ts_interval_str := "80ns" |} in
   let st := tick pem (rewrite_file (fst (load pem (fst (load pem (pinit [("f", "A")]) s1)) s2)) "f" "B") in
-  map tc_extra_ca (objs st) = [Some "A"; Some "B"].
+  map tc_extra_ca (objs st) = [Some "B"; Some "B"].
 Proof. vm_compute. reflexivity. Qed.
